@@ -6,7 +6,7 @@ import refs as R
 import artrefs
 import common
 from common import CSR_FN
-from interp import core, places, calls_of, Interp, StructV, PhiV
+from interp import core, places, calls_of, roots, Interp, StructV, PhiV
 
 PROP = "C07"
 CONFIGS_QUICK = ["K1", "K2"]
@@ -153,9 +153,13 @@ def check_back(cfg, crate, rep):
     calls = common.calls_in(b)
     names = [c for c, n, ps in calls]
     # KU: from_u16(flags.reverse_bits())
-    ku = [(c, n) for c, n, ps in calls if c == "KeyUsagePurpose::from_u16"]
-    ok = len(ku) == 1 and any((x.get("callee") or "").endswith("reverse_bits") for x in common.hir_walk(ku[0][1]))
-    rep.ob("C07.back", "%s|%s|key-usage" % (cfg, fn), ok, "key usage flags are bit-reversed (x509-parser stores them LSB-first) and decoded by from_u16", found=len(ku))
+    # the value stored into key_usages: from_u16(reverse_bits(<the extension's flags>)), however it is spelt
+    Ik = Interp(crate)
+    Ik.run_fn(fn)
+    kus = [(p_[1]) for t_, k_, p_, n_, f_, c_ in Ik.muts if k_ == "assign" and p_ and p_[0] == ".key_usages" and f_ == fn]
+    from interp import calls_of as _co, places as _pl
+    ok = len(kus) == 1 and any(x.endswith("KeyUsagePurpose::from_u16") for x in _co(kus[0])) and any(x.endswith("::reverse_bits") for x in _co(kus[0])) and (any(pl_.endswith(".flags") for pl_ in _pl(kus[0])) or "sel:.flags" in roots(kus[0]))
+    rep.ob("C07.back", "%s|%s|key-usage" % (cfg, fn), ok, "key usage flags are bit-reversed (x509-parser stores them LSB-first) and decoded by from_u16", found=[core(x).r()[-120:] for x in kus])
     # from_u16 is the inverse of the writer's to_u16 table: decided by exhaustive constant propagation (analysis L) over
     # every combination of the nine defined bits, every single bit of the word, and all-ones
     import ceval
